@@ -105,7 +105,7 @@ func c05Worker(c *core.Collector, x *Ctx) {
 	c.Rule = "totals N=1..Nmax with EVERY permutation of packets 2..N after packet 1 x {escape-free, escaped} x {equal, unequal lengths} x {plain, duplicate of each later packet at every position, unfragmented message (a heartbeat, or a message with the transfer's own ID) interleaved at every position, " +
 		"impossible package numbers 0/N+1/65535 at every position} x segmentations {one packet per read, pairs, all coalesced, random cuts}; two interleaved transfers of different IDs at every merge pattern (N<=3); random N<=40. " +
 		"non-trivial = N>=2; distinct by hash of the reads"
-	cats := map[string]bool{"reasm": true, "crash": true}
+	cats := map[string]bool{"reasm": true, "crash": true, "stream": true} // (a parser error on a valid stream of sub-packages loses the transfer: C05's business as much as C04's)
 	Nmax := c.N(6, 7)
 	run := func(gen string, frames [][]byte, mode int, r *core.Rand, nt bool) {
 		var stream []byte
